@@ -64,9 +64,9 @@ PROPS = {
                 trusted=[KERNEL, 'model evaluated inside Coq by vm_compute on generated cases_C07.v (exact rationals)', 'mathcomp 1.15 (ssreflect, algebra) for the matrix theorems; no axioms',
                          'harness/c07.py: exact dyadic conversion of the implementation matrices, dont-care band 1e-9 around the surface',
                          'modelled not verified: floating-point rounding inside numpy/LAPACK (Cholesky, inverse, einsum), the Khachiyan iteration (its output is checked: rescaled quadratic forms of the construction points), MLPRegressor scores (oracle bits)']),
-    'C08': dict(module='c08', pfile=['P_C08', 'P_C08_det'],
-                required=['C08_uniform', 'C08_accept', 'C08_filter', 'C08_sample', 'C08_accepted', 'C08_merge', 'C08_det'],
-                trusted=[KERNEL, 'model evaluated inside Coq by vm_compute on generated cases_C08.v', 'mathcomp for C08_det; no axioms',
+    'C08': dict(module='c08', pfile=['P_C08', 'P_C08_det', 'P_C08_real'],
+                required=['C08_uniform', 'C08_accept', 'C08_filter', 'C08_sample', 'C08_accepted', 'C08_merge', 'C08_det', 'C08_radial', 'C08_radius'],
+                trusted=[KERNEL, 'model evaluated inside Coq by vm_compute on generated cases_C08.v', 'mathcomp for C08_det; no axioms', 'C08_radial / C08_radius use the real numbers of the standard library (axioms ClassicalDedekindReals.sig_forall_dec, sig_not_dec, Classical_Prop.classic, FunctionalExtensionality.functional_extensionality_dep)',
                          'harness/c08.py: recording generator proxy, member proxies, multiplicities recomputed with the real members',
                          'NOT proved: the Lebesgue measure of an ellipsoid (no measure theory available): the constant pi^(d/2)/Gamma(d/2+1) and the calibration are checked numerically; uniformity of numpy multinomial / normal / shuffle / random is an oracle',
                          'the statistical checks (occupancy, calibration) are support at a false-alarm level below 1e-9 each, not proof']),
